@@ -50,7 +50,7 @@ def default_strings(col):
     return runs(col != 0)
 
 
-def encode_binary(mats, endian="<", bit64=False, layout="dense", strings=None, trailer="nastran", dense_start=None):
+def encode_binary(mats, endian="<", bit64=False, layout="dense", strings=None, trailer="nastran", dense_start=None, big_positive=False):
     """strings: optional function (matrix index, column index, column) -> list of (start,length) strings covering all
     non-zeros (used by sparse layouts).  dense_start: optional function (mi, j, first_nz) -> start row (<= first_nz).
     Returns (bytes, ground truth list with byte ranges)."""
@@ -73,7 +73,9 @@ def encode_binary(mats, endian="<", bit64=False, layout="dense", strings=None, t
         wpv = words_per_value(mtype, bit64)
         start = len(out)
         name = m["name"].upper().ljust(16 if bit64 else 8).encode()
-        rec(struct.pack(endian + "4" + ("q" if bit64 else "i"), ncol, -nrow if layout == "bigmat" else nrow, m["form"], mtype) + name)
+        # BIGMAT strings are announced by a negative row count - or are implied by 65536 or more rows (big_positive)
+        neg = layout == "bigmat" and not (big_positive and nrow >= 65536)
+        rec(struct.pack(endian + "4" + ("q" if bit64 else "i"), ncol, -nrow if neg else nrow, m["form"], mtype) + name)
         for j in range(ncol):
             col = A[:, j]
             nz = np.nonzero(col)[0]
@@ -117,7 +119,7 @@ def fortran_e(x, numlen, digits, dchar="E"):
 
 
 def encode_ascii(mats, numlen=16, digits=9, perline=5, dchar="E", layout="dense", strings=None, bit64=False, onep=True,
-                 int16=False, trailer="nastran", name_pad=" "):
+                 int16=False, trailer="nastran", name_pad=" ", big_positive=False):
     """returns (text, truth, decimal: list of matrices holding float(text of each written value))"""
     lines = []
     truth = []
@@ -148,7 +150,8 @@ def encode_ascii(mats, numlen=16, digits=9, perline=5, dchar="E", layout="dense"
         fmt = "%s%d%s%d.%d" % ("1P," if onep else "", perline, dchar, numlen, digits)
         nm = m["name"].upper()
         nm = nm + name_pad * (8 - len(nm))
-        lines.append("%*d%*d%8d%8d%s%s%s" % (iw, ncol, iw, -nrow if layout == "bigmat" else nrow, m["form"], mtype, nm, fmt, "|I16" if int16 else ""))
+        neg = layout == "bigmat" and not (big_positive and nrow >= 65536)
+        lines.append("%*d%*d%8d%8d%s%s%s" % (iw, ncol, iw, -nrow if neg else nrow, m["form"], mtype, nm, fmt, "|I16" if int16 else ""))
 
         def put(j, s, dec):
             if mtype in (3, 4):
